@@ -236,6 +236,7 @@ func runC03(c *Ctx) {
 
 	// R03.2 consumers
 	nCons := 0
+	consIn := map[*ssa.Function]bool{}
 	var hfns []*ssa.Function
 	hfns = append(hfns, p.KetoFuncs("internal/check")...)
 	for _, fn := range hfns {
@@ -260,6 +261,7 @@ func runC03(c *Ctx) {
 				return
 			}
 			nCons++
+			consIn[core.Outermost(fn)] = true
 			name := core.FuncName(fn)
 			guarded := false
 			for _, cd := range core.CondsAt(b) {
@@ -278,8 +280,63 @@ func runC03(c *Ctx) {
 			}
 		})
 	}
-	if nCons < 3 {
-		r.Undecide("R03.2", "", "consumers", "", fmt.Sprintf("only %d consumers of Membership found (floor 3: CheckIsMember, REST batch, gRPC batch)", nCons))
+	// floor: every function that obtains results from the engine (CheckIsMember, the REST
+	// and the gRPC batch handler) derives 'allowed' in a consumer judged above - in its own
+	// body or in a helper it calls
+	var reaches func(fn *ssa.Function, depth int) bool
+	reaches = func(fn *ssa.Function, depth int) bool {
+		if consIn[fn] {
+			return true
+		}
+		if depth >= 3 {
+			return false
+		}
+		found := false
+		for _, f2 := range core.Closures(fn) {
+			core.Instrs(f2, func(_ *ssa.BasicBlock, _ int, ins ssa.Instruction) {
+				if c, ok := ins.(ssa.CallInstruction); ok && !found {
+					if sc := c.Common().StaticCallee(); sc != nil && sc.Blocks != nil && core.FuncPkg(sc) != nil && core.IsKeto(core.FuncPkg(sc)) && sc != fn {
+						found = reaches(core.Outermost(sc), depth+1)
+					}
+				}
+			})
+		}
+		return found
+	}
+	nEntries := 0
+	for _, fn := range hfns {
+		if fn.Parent() != nil {
+			continue
+		}
+		obtains := false
+		for _, f2 := range core.Closures(fn) {
+			core.Instrs(f2, func(_ *ssa.BasicBlock, _ int, ins ssa.Instruction) {
+				if c, ok := ins.(ssa.CallInstruction); ok {
+					if sc := c.Common().StaticCallee(); sc != nil && sc.Signature.Recv() != nil && core.IsNamed(sc.Signature.Recv().Type(), core.KetoMod+"/internal/check", "Engine") &&
+						(sc.Name() == "CheckRelationTuple" || sc.Name() == "BatchCheck") {
+						obtains = true
+					}
+				}
+			})
+		}
+		if !obtains {
+			continue
+		}
+		if rt := fn.Signature.Results(); rt.Len() > 0 {
+			if core.IsNamed(rt.At(0).Type(), checkgroupPkg, "Result") {
+				continue // hands the result on as it is
+			}
+			if sl, ok := rt.At(0).Type().Underlying().(*types.Slice); ok && core.IsNamed(sl.Elem(), checkgroupPkg, "Result") {
+				continue
+			}
+		}
+		nEntries++
+		if !reaches(fn, 0) {
+			r.Undecide("R03.2", core.FuncName(fn), "consumer of the engine's results", p.Pos(fn.Pos()), "this function obtains results from the engine but no place where it (or a helper it calls) derives 'allowed' from Membership was recognised")
+		}
+	}
+	if nCons < 1 || nEntries < 3 {
+		r.Undecide("R03.2", "", "consumers", "", fmt.Sprintf("%d consumers of Membership in %d functions that obtain results from the engine (floor: 1 consumer, 3 such functions: CheckIsMember, REST batch, gRPC batch)", nCons, nEntries))
 	}
 }
 
